@@ -187,8 +187,13 @@ class Client(object):
             d.open = False
             d._connected = False
             self.server.on_closed(d)
+        # the process is gone: its database connection with it — whatever it had not committed is lost
+        try:
+            store = self.stack.getProp("profile").axolotl_manager._store
+            store.identityKeyStore.dbConn.close()
+        except Exception:
+            pass
         self.stack = None
-        # the manager caches a sqlite connection per profile object: a new process opens a new one
 
     def restart(self):
         self.kill_process()
